@@ -1,11 +1,12 @@
 (* C04 - Successful generation always yields compilable, hygienic Go.  (partial: the parts that are logic)
    What a theorem can carry here: freshness of every allocated identifier against keywords, predeclared identifiers,
-   package-level names and one another (from C12), exactness and order of the import block, and - via Layer A - that
-   every variable read is a variable that some emitted statement defines. The Go type checker itself is not modelled:
-   `go vet` on every generated package is the tie. *)
+   package-level names and one another (from C12), exactness and order of the import block, via Layer A that every
+   variable read is a variable that some emitted statement defines, and that every type is spelled as an expression that
+   denotes that same type (model of createASTTypeExpr, tied to the real function on random types). The Go type checker
+   itself is not modelled: `go vet` on every generated package is the tie for "compiles". *)
 From Coq Require Import String List Arith Bool Permutation.
 Import ListNotations.
-Require Import Dec VarPool VarPoolRun Reserved_gen Determinism Sem2 Safe Check.
+Require Import Dec VarPool VarPoolRun Reserved_gen Determinism Sem2 Safe Check TypeRender.
 Open Scope string_scope.
 
 (* no generated identifier clashes with a keyword, a predeclared identifier, a pre-registered package-level or import
@@ -49,3 +50,22 @@ Proof.
   destruct (ready_reads p s t pc it (Live.wfl_wf _ _ W) I Ct Ci) as (vs & H & _). eauto.
 Qed.
 Print Assumptions C04_no_use_before_definition.
+
+
+(* Every type go/types can hand to the generator from the property's universe - basic types (unsafe.Pointer included),
+   named and alias types of the current or of another package, instances of generic types, pointers, slices, arrays, maps,
+   channels with direction, function types (variadic included), struct types (embedded fields and tags included) and
+   interface types - is spelled by the model of createASTTypeExpr as an expression that, read in the generated file (whose
+   import block maps every import name back to its path), denotes exactly that type. *)
+Theorem C04_type_spelled_as_denoted : forall cur alias unalias, (forall p, unalias (alias p) = Some p) ->
+  forall t, TypeRender.wf cur t -> denote cur unalias (render cur alias t) = Some t.
+Proof. exact roundtrip. Qed.
+Print Assumptions C04_type_spelled_as_denoted.
+
+(* non-vacuity: a variadic function over a generic instance, an embedded field with a tag, unsafe.Pointer *)
+Example C04_type_example :
+  let t := TFunc [TNamed "example.com/q" "Box" [TSlice (TBasic "int")]; TSlice (TStruct [("Reader", true, "json:\"r\"", TNamed "io" "Reader" [])])] true [TBasic "Pointer"; TNamed "" "error" []] in
+  render "example.com/p" (fun p => if String.eqb p "io" then "io0" else if String.eqb p "unsafe" then "unsafe" else "q") t =
+    EFunc [("arg0", EIndex (ESel "q" "Box") [EArr None (EId "int")]); ("arg1", EEllipsis (EStruct [(None, "json:\"r\"", ESel "io0" "Reader")]))]
+          [("result0", ESel "unsafe" "Pointer"); ("result1", EId "error")].
+Proof. vm_compute. reflexivity. Qed.
